@@ -86,9 +86,21 @@ def run(pid, tier, seed, drv, replay):
         {"name": "client-mode grpc client", "mode": "client", "conf": os.path.join(testing, "grpc-impls-config.yaml"), "kf": "grpcclient-known-failing.txt", "peer": "grpcclient", "max_servers": 4},
     ]
 
+    if tier == "quick":
+        # the sub-matrix leaves four encodings and one HTTP version out: two more reference runs sweep the complete
+        # shipped matrix (all versions x all encodings) over the Basic suite, so every axis value is exercised by
+        # real RPCs of every stream type in every quick run
+        shipped = os.path.join(testing, "reference-impls-config.yaml")
+        runs.append({"name": "server-mode reference server basic sweep", "mode": "server", "conf": shipped, "kf": "referenceserver-known-failing.txt",
+                     "peer": "referenceserver", "max_servers": 4, "extra": ["--run", "Basic/**"]})
+        runs.append({"name": "client-mode reference client basic sweep", "mode": "client", "conf": shipped, "kf": "referenceclient-known-failing.txt",
+                     "peer": "referenceclient", "max_servers": 8, "extra": ["--run", "Basic/**"]})
+
     def one(r, extra=None, tag=""):
         cmd = [cc, "-v", "--vv", "--conf", r["conf"], "--mode", r["mode"], "--max-servers", str(r["max_servers"]),
                "--known-failing", "@" + os.path.join(testing, r["kf"])]
+        if r.get("extra"):
+            cmd += r["extra"]
         if extra:
             cmd += extra
         cmd += ["--", os.path.join(bdir, r["peer"])]
@@ -104,7 +116,7 @@ def run(pid, tier, seed, drv, replay):
             out = lf.read()
         return {"run": r, "rc": rc, "out": out, "log": logpath, "wall": time.time() - ts}
 
-    with cf.ThreadPoolExecutor(max_workers=5) as ex:
+    with cf.ThreadPoolExecutor(max_workers=len(runs)) as ex:
         results = list(ex.map(one, runs))
 
     violations = []
@@ -123,6 +135,9 @@ def run(pid, tier, seed, drv, replay):
         names_seen |= sent
         m = re.search(r"Total cases: (\d+)\n(\d+) passed, (\d+) failed", out)
         comp = re.search(r"Computed (\d+) test case permutation", out)
+        filtered = re.search(r"Filtered tests to (\d+) test case permutation", out)
+        if filtered and r.get("extra"):
+            comp = filtered  # a --run filter is in force: the selected permutations are the filtered ones
         failed_names = re.findall(r"^FAILED: (.*?):?$", out, re.M)
         failed_names = [re.sub(r" was expected to fail but did not$", "", n) for n in failed_names]
         info_names = re.findall(r"^INFO: (.*?) failed \(as expected\):", out, re.M)
@@ -179,7 +194,7 @@ def run(pid, tier, seed, drv, replay):
             "distinct_nontrivial": len(names_seen),
             "rule": ("every (config case x embedded test case) permutation of the shipped configurations is a case; the runner itself is the oracle (exit status, summary totals == computed permutations, no FAILED line, "
                      "known-failing lists exact - re-checked from the output with an own glob matcher); distinct = distinct full test names handed to a client (from -vv output); every permutation is non-trivial (it is a distinct end-to-end RPC scenario). "
-                     "quick: gRPC-peer runs in full, reference runs on a seeded sub-matrix (HTTP/2 plus one of HTTP/1.1 and HTTP/3, identity + 1 of 5 compressions); thorough: all five runs in full."),
+                     "quick: gRPC-peer runs in full, reference runs on a seeded sub-matrix (HTTP/2 plus one of HTTP/1.1 and HTTP/3, identity + 1 of 5 compressions) plus a sweep of the complete shipped matrix over the Basic suite; thorough: all five runs in full."),
             "samples": samples or [{"note": "no request was sent"}],
             "exhaustive": tier == "thorough" and not violations and not notes,
             "runs": per_run,
